@@ -408,18 +408,18 @@ Proof.
   apply existsb_exists. exists (s, R.Req r t, R.Forward c). split; [exact Hin|]. cbn. rewrite E. apply key_eqb_refl.
 Qed.
 
-(* THE TIMED FORM of "forwarded again": a purge tick later than t + window, then a request of k that finds room:
+(* "forwarded again", positional form: a purge tick later than t + window, LATER IN THE HISTORY a request of k that finds room:
    some request of k has been forwarded after t and not later than that request - whatever else arrived in between *)
-Theorem forward_between st t0 ops k t stau tau s2 r2 u o2 :
+Theorem forward_between_pos st t0 ops k t pre stau tau mid s2 r2 u o2 post :
   mono t0 ops -> cache_wf st -> known st (fst k) ->
   (forall t', In (k, t') (R.cache st) -> t' <= t) ->
-  In (stau, R.Tick tau, R.Purged) (R.run st ops) -> t + reobs_window < tau ->
-  In (s2, R.Req r2 u, o2) (R.run st ops) -> R.key_of r2 = k -> tau < u -> o2 <> R.DropFull ->
+  R.run st ops = pre ++ (stau, R.Tick tau, R.Purged) :: mid ++ (s2, R.Req r2 u, o2) :: post ->
+  t + reobs_window < tau -> R.key_of r2 = k -> o2 <> R.DropFull ->
   exists s r f c, In (s, R.Req r f, R.Forward c) (R.run st ops) /\ R.key_of r = k /\ t < f <= u.
 Proof.
-  intros Hm W K Hold Htick Hgap Hreq Hk Hlt Hnf. pose proof window_pos as Wpos.
-  destruct (run_two st t0 ops _ _ tau u Hm Htick Hreq eq_refl eq_refl Hlt) as (pre & mid & post & E).
+  intros Hm W K Hold E Hgap Hk Hnf. pose proof window_pos as Wpos.
   destruct (run_order _ _ _ _ _ _ _ _ _ Hm E eq_refl) as [Hpre Hpost].
+  assert (Hlt : tau <= u) by (eapply (Hpost s2 (R.Req r2 u) o2); [apply in_or_app; right; left; reflexivity|reflexivity]).
   destruct (existsb (is_fwd k) mid) eqn:Ex.
   - apply existsb_exists in Ex as ([[s o] x] & Hin & Hf). destruct o as [r f| |]; try discriminate Hf. destruct x; try discriminate Hf.
     cbn [is_fwd] in Hf. apply key_eqb_eq in Hf. exists s, r, f, c. split; [rewrite E; apply in_or_app; right; right; apply in_or_app; left; exact Hin|]. split; [exact Hf|].
@@ -450,4 +450,271 @@ Proof.
       exists sc, r2, u, (R.chain_of r2). split; [|split; [exact Hk|lia]].
       rewrite E. apply in_or_app; right; right. apply in_or_app; right; left. rewrite Ho. reflexivity.
 Qed.
+
+(* ... and with clock readings deciding the order *)
+Corollary forward_between st t0 ops k t stau tau s2 r2 u o2 :
+  mono t0 ops -> cache_wf st -> known st (fst k) ->
+  (forall t', In (k, t') (R.cache st) -> t' <= t) ->
+  In (stau, R.Tick tau, R.Purged) (R.run st ops) -> t + reobs_window < tau ->
+  In (s2, R.Req r2 u, o2) (R.run st ops) -> R.key_of r2 = k -> tau < u -> o2 <> R.DropFull ->
+  exists s r f c, In (s, R.Req r f, R.Forward c) (R.run st ops) /\ R.key_of r = k /\ t < f <= u.
+Proof.
+  intros Hm W K Hold Htick Hgap Hreq Hk Hlt Hnf.
+  destruct (run_two st t0 ops _ _ tau u Hm Htick Hreq eq_refl eq_refl Hlt) as (pre & mid & post & E).
+  eapply forward_between_pos; eassumption.
+Qed.
 End Dispatcher.
+
+(* ================================================================== Part 2: time and structure of composed histories *)
+(* clock readings never decrease along a history *)
+Fixpoint lmono (t0 : Z) (H : list lop) : Prop :=
+  match H with
+  | [] => True
+  | LClock t :: r => t0 <= t /\ lmono t r
+  | _ :: r => lmono t0 r
+  end.
+
+Definition last_clock (c : Z) (ops : list op) : Z := fold_left (fun c o => match o with SetClock t => t | _ => c end) ops c.
+
+Section Loop2.
+Variable recover : bytes -> bytes -> option bytes.
+Variable keccak : bytes -> bytes.
+Variable sign : bytes -> bytes.
+Variable own : addr.
+Variable gov_chain : Z.
+Variable gov_addr : bytes.
+Variable decode_hb : bytes -> option Z.
+Variable decodeq : bytes -> option R.req.
+Variable encq : R.req -> bytes.
+Variable self : G.peerid.
+Variable disable : bool.
+Variable watch : Z -> R.req -> Z -> list msgpub.
+
+Notation step := (Processor.step recover keccak sign own gov_chain gov_addr).
+Notation prun := (Processor.run recover keccak sign own gov_chain gov_addr).
+Notation gstep := (ReobsLoop.gstep recover keccak decode_hb decodeq self disable).
+Notation feed := (ReobsLoop.feed recover keccak sign own gov_chain gov_addr).
+Notation lstep := (ReobsLoop.lstep recover keccak sign own gov_chain gov_addr decode_hb decodeq encq self disable watch).
+Notation lrun := (ReobsLoop.lrun recover keccak sign own gov_chain gov_addr decode_hb decodeq encq self disable watch).
+Notation lstates := (ReobsLoop.lstates recover keccak sign own gov_chain gov_addr decode_hb decodeq encq self disable watch).
+Notation feed_spec := (feed_spec recover keccak sign own gov_chain gov_addr).
+Notation lstep_wf := (lstep_wf recover keccak sign own gov_chain gov_addr decode_hb decodeq encq self disable watch).
+Notation lrun_wf := (lrun_wf recover keccak sign own gov_chain gov_addr decode_hb decodeq encq self disable watch).
+
+Lemma lrun_app : forall H1 st H2, lrun st (H1 ++ H2) = let '(s1, e1) := lrun st H1 in let '(s2, e2) := lrun s1 H2 in (s2, e1 ++ e2).
+Proof.
+  induction H1 as [|o H1 IH]; intros st H2; cbn [app ReobsLoop.lrun]; [destruct (lrun st H2); reflexivity|].
+  destruct (lstep st o) as [st1 e1]. rewrite IH. destruct (lrun st1 H1) as [s1 e1']. destruct (lrun s1 H2) as [s2 e2]. rewrite app_assoc. reflexivity.
+Qed.
+Lemma lrun_cons st o H : lrun st (o :: H) = (fst (lrun (fst (lstep st o)) H), snd (lstep st o) ++ snd (lrun (fst (lstep st o)) H)).
+Proof. cbn [ReobsLoop.lrun]. destruct (lstep st o) as [st1 e1]. cbn [fst snd]. destruct (lrun st1 H). reflexivity. Qed.
+Lemma lrun_app_fst st H1 H2 : fst (lrun st (H1 ++ H2)) = fst (lrun (fst (lrun st H1)) H2).
+Proof. rewrite lrun_app. destruct (lrun st H1) as [s1 e1]. cbn [fst snd]. destruct (lrun s1 H2). reflexivity. Qed.
+Lemma lrun_app_snd st H1 H2 : snd (lrun st (H1 ++ H2)) = snd (lrun st H1) ++ snd (lrun (fst (lrun st H1)) H2).
+Proof. rewrite lrun_app. destruct (lrun st H1) as [s1 e1]. cbn [fst snd]. destruct (lrun s1 H2). reflexivity. Qed.
+
+Lemma lstates_app : forall H1 st H2, lstates st (H1 ++ H2) = lstates st H1 ++ lstates (fst (lrun st H1)) H2.
+Proof.
+  induction H1 as [|o H1 IH]; intros st H2; [reflexivity|]. cbn [app ReobsLoop.lstates]. rewrite IH, lrun_cons. reflexivity.
+Qed.
+Lemma lstates_split : forall H st s o, In (s, o) (lstates st H) -> exists H1 H2, H = H1 ++ o :: H2 /\ s = fst (lrun st H1).
+Proof.
+  induction H as [|o' H IH]; intros st s o Hin; [destruct Hin|]. cbn [ReobsLoop.lstates] in Hin. destruct Hin as [E|Hin].
+  - inversion E; subst. exists [], H. split; reflexivity.
+  - destruct (IH _ _ _ Hin) as (H1 & H2 & -> & ->). exists (o' :: H1), H2. split; [reflexivity|]. rewrite lrun_cons. reflexivity.
+Qed.
+
+(* ---- one step: the clock, the time tags, the processor inputs, the send queue *)
+Lemma lstep_now st o : l_now (fst (lstep st o)) = match o with LClock t => t | _ => l_now st end.
+Proof.
+  destruct o as [t| |q| |from m| |c|e]; cbn [ReobsLoop.lstep].
+  - match goal with |- context [feed ?s ?os] => destruct (feed_spec os s) as ((_ & _ & _ & F) & _); destruct (feed s os) end. cbn [fst l_now] in *. congruence.
+  - pose proof (feed_spec (cleanup_ops (l_now st)) st) as F. destruct (feed st (cleanup_ops (l_now st))) as [st1 e1]. destruct F as ((_ & _ & _ & F) & _).
+    pose proof (post_all_spec (reqs_of_evs e1) st1) as Q. destruct (post_all st1 (reqs_of_evs e1)) as [st2 e2]. destruct Q as ((_ & _ & _ & Q) & _). cbn [fst] in *. congruence.
+  - pose proof (post_all_spec [q] st) as Q. destruct (post_all st [q]) as [st2 e2]. destruct Q as ((_ & _ & _ & Q) & _). cbn [fst] in *. congruence.
+  - destruct (l_sendq st) as [|q qs]; [reflexivity|]. destruct (gstep (l_p2p st) (G.LLocalReq (encq q))) as [g' outs].
+    match goal with |- context [dispatch_all ?s ?rs] => pose proof (dispatch_all_spec rs s) as D; destruct (dispatch_all s rs) as [st1 e1] end.
+    destruct D as ((_ & _ & _ & D) & _). cbn [fst with_p2p with_sendq l_now] in *. congruence.
+  - destruct (gstep (l_p2p st) (G.LRecv from m)) as [g' outs].
+    match goal with |- context [feed ?s ?os] => pose proof (feed_spec os s) as F; destruct (feed s os) as [st1 e1] end. destruct F as ((_ & _ & _ & F) & _).
+    pose proof (dispatch_all_spec (reqs_of decodeq outs) st1) as D. destruct (dispatch_all st1 (reqs_of decodeq outs)) as [st2 e2]. destruct D as ((_ & _ & _ & D) & _).
+    cbn [fst with_p2p l_now] in *. congruence.
+  - unfold dispatch. destruct (R.step _ _). reflexivity.
+  - destruct (R.step (l_disp st) (R.Drain c)) as [d' x]. destruct x as [c0| | | | | |[r|]]; try reflexivity.
+    match goal with |- context [feed ?s ?os] => pose proof (feed_spec os s) as F; destruct (feed s os) as [st2 e2] end. destruct F as ((_ & _ & _ & F) & _). cbn [fst with_disp l_now] in *. congruence.
+  - match goal with |- context [feed ?s ?os] => pose proof (feed_spec os s) as F; destruct (feed s os) as [st2 e2] end. destruct F as ((_ & _ & _ & F) & _). cbn [fst] in *. rewrite <- F. destruct e; reflexivity.
+Qed.
+
+Ltac open_feed F := match goal with |- context [feed ?s ?os] => pose proof (feed_spec os s) as F; destruct (feed s os) as [? ?] end.
+Ltac open_dall D := match goal with |- context [dispatch_all ?s ?rs] => pose proof (dispatch_all_spec rs s) as D; destruct (dispatch_all s rs) as [? ?] end.
+Ltac open_post Q := match goal with |- context [post_all ?s ?rs] => pose proof (post_all_spec rs s) as Q; destruct (post_all s rs) as [? ?] end.
+
+(* every event of a step carries the clock reading the step ends with *)
+Lemma lstep_tags st o : Forall (fun e => fst e = l_now (fst (lstep st o))) (snd (lstep st o)).
+Proof.
+  rewrite lstep_now. destruct o as [t| |q| |from m| |c|e]; cbn [ReobsLoop.lstep].
+  - open_feed F. destruct F as (_ & _ & _ & F & _). cbn [snd l_now] in *. eapply Forall_impl; [|exact F]. intros a [A _]. exact A.
+  - open_feed F. destruct F as ((_ & _ & _ & F0) & _ & _ & F & _). open_post Q. destruct Q as (_ & _ & _ & Q). cbn [fst snd] in *.
+    apply Forall_app. split; [eapply Forall_impl; [|exact F]; intros a [A _]; exact A|eapply Forall_impl; [|exact Q]; intros a [A _]; congruence].
+  - open_post Q. destruct Q as (_ & _ & _ & Q). cbn [snd]. eapply Forall_impl; [|exact Q]. intros a [A _]. exact A.
+  - destruct (l_sendq st) as [|q qs]; [constructor|]. destruct (gstep (l_p2p st) (G.LLocalReq (encq q))) as [g' outs]. open_dall D.
+    destruct D as (_ & _ & _ & D & _). cbn [snd with_p2p with_sendq l_now] in *. apply Forall_app. split; [eapply Forall_impl; [|exact D]; intros a [A _]; exact A|constructor; [reflexivity|constructor]].
+  - destruct (gstep (l_p2p st) (G.LRecv from m)) as [g' outs]. open_feed F. destruct F as ((_ & _ & _ & F0) & _ & _ & F & _). open_dall D. destruct D as (_ & _ & _ & D & _).
+    cbn [fst snd with_p2p l_now] in *. apply Forall_app. split; [eapply Forall_impl; [|exact F]; intros a [A _]; exact A|eapply Forall_impl; [|exact D]; intros a [A _]; congruence].
+  - unfold dispatch. destruct (R.step _ _). constructor; [reflexivity|constructor].
+  - destruct (R.step (l_disp st) (R.Drain c)) as [d' x]. destruct x as [c0| | | | | |[r|]]; try (constructor; [reflexivity|constructor]).
+    open_feed F. destruct F as (_ & _ & _ & F & _). cbn [snd with_disp l_now] in *. constructor; [reflexivity|]. constructor; [reflexivity|]. eapply Forall_impl; [|exact F]. intros a [A _]. exact A.
+  - open_feed F. destruct F as (_ & _ & _ & F & _). cbn [snd] in *. eapply Forall_impl; [|exact F]. intros a [A _]. rewrite A. destruct e; reflexivity.
+Qed.
+
+(* the processor inputs of a step *)
+Lemma lstep_pops st o : pops (snd (lstep st o)) =
+  match o with
+  | LClock t => [SetClock t]
+  | LCleanup => cleanup_ops (l_now st)
+  | LGossip from m => proc_ops_of (snd (gstep (l_p2p st) (G.LRecv from m)))
+  | LWatch c => match snd (R.step (l_disp st) (R.Drain c)) with R.Drained (Some r) => map LocalMsg (watch c r (l_now st)) | _ => [] end
+  | LEnv e => [op_of_env e]
+  | _ => []
+  end.
+Proof.
+  destruct o as [t| |q| |from m| |c|e]; cbn [ReobsLoop.lstep].
+  - open_feed F. destruct F as (_ & _ & _ & _ & F). exact F.
+  - open_feed F. destruct F as (_ & _ & _ & _ & F). open_post Q. destruct Q as (_ & _ & Q & _). cbn [snd] in *. rewrite pops_app, F. unfold pops. rewrite Q. apply app_nil_r.
+  - open_post Q. destruct Q as (_ & _ & Q & _). cbn [snd] in *. unfold pops. rewrite Q. reflexivity.
+  - destruct (l_sendq st) as [|q qs]; [reflexivity|]. destruct (gstep (l_p2p st) (G.LLocalReq (encq q))) as [g' outs]. open_dall D.
+    destruct D as (_ & _ & D & _). cbn [snd] in *. unfold pops. rewrite proc_of_app, D. reflexivity.
+  - destruct (gstep (l_p2p st) (G.LRecv from m)) as [g' outs]. open_feed F. destruct F as (_ & _ & _ & _ & F). open_dall D. destruct D as (_ & _ & D & _).
+    cbn [snd] in *. rewrite pops_app, F. unfold pops. rewrite D. apply app_nil_r.
+  - unfold dispatch. destruct (R.step _ _). reflexivity.
+  - destruct (R.step (l_disp st) (R.Drain c)) as [d' x]. cbn [snd]. destruct x as [c0| | | | | |[r|]]; try reflexivity.
+    open_feed F. destruct F as (_ & _ & _ & _ & F). cbn [snd] in *. exact F.
+  - open_feed F. destruct F as (_ & _ & _ & _ & F). exact F.
+Qed.
+
+Lemma lstep_no_cleanup st o : o <> LCleanup -> Forall (fun x => x <> Cleanup) (pops (snd (lstep st o))).
+Proof.
+  intros Hn. rewrite lstep_pops. destruct o as [t| |q| |from m| |c|e]; try contradiction; try constructor; try discriminate; try constructor.
+  - unfold proc_ops_of. apply Forall_forall. intros x Hx. apply in_flat_map in Hx as (y & _ & Hy). destruct y; [destruct Hy as [<-|[]]; discriminate|destruct Hy as [<-|[]]; discriminate|destruct Hy].
+  - destruct (snd (R.step (l_disp st) (R.Drain c))) as [c0| | | | | |[r|]]; try constructor. apply Forall_forall. intros x Hx. apply in_map_iff in Hx as (y & <- & _). discriminate.
+  - destruct e; discriminate.
+Qed.
+
+(* the dispatcher ops of a step carry the clock reading of the step (a drain carries none) *)
+Lemma lstep_dops st o : Forall (fun d => RP.op_time d = Some (l_now (fst (lstep st o))) \/ RP.op_time d = None) (dops (snd (lstep st o))).
+Proof.
+  rewrite lstep_now. destruct o as [t| |q| |from m| |c|e]; cbn [ReobsLoop.lstep].
+  - open_feed F. destruct F as (_ & _ & F & _). unfold dops. cbn [snd] in *. rewrite F. constructor.
+  - open_feed F. destruct F as (_ & _ & F & _). open_post Q. destruct Q as (_ & Q & _). unfold dops. cbn [snd] in *. rewrite disp_of_app, F, Q. constructor.
+  - open_post Q. destruct Q as (_ & Q & _). unfold dops. cbn [snd] in *. rewrite Q. constructor.
+  - destruct (l_sendq st) as [|q qs]; [constructor|]. destruct (gstep (l_p2p st) (G.LLocalReq (encq q))) as [g' outs]. open_dall D.
+    destruct D as (_ & _ & _ & _ & D). cbn [snd with_p2p with_sendq l_now] in *. rewrite dops_app, D. apply Forall_app. split; [|constructor].
+    apply Forall_forall. intros d Hd. apply in_map_iff in Hd as (y & <- & _). left. reflexivity.
+  - destruct (gstep (l_p2p st) (G.LRecv from m)) as [g' outs]. open_feed F. destruct F as ((_ & _ & _ & F0) & _ & F & _). open_dall D. destruct D as (_ & _ & _ & _ & D).
+    cbn [fst snd with_p2p l_now] in *. rewrite dops_app, D. unfold dops at 1. rewrite F. cbn [map app].
+    apply Forall_forall. intros d Hd. apply in_map_iff in Hd as (y & <- & _). left. cbn. congruence.
+  - unfold dispatch. destruct (R.step _ _). constructor; [left; reflexivity|constructor].
+  - destruct (R.step (l_disp st) (R.Drain c)) as [d' x]. destruct x as [c0| | | | | |[r|]]; try (constructor; [right; reflexivity|constructor]).
+    open_feed F. destruct F as (_ & _ & F & _). cbn [snd] in *. unfold dops. cbn [disp_of flat_map snd app map fst]. fold (disp_of l0). rewrite F. constructor; [right; reflexivity|constructor].
+  - open_feed F. destruct F as (_ & _ & F & _). unfold dops. cbn [snd] in *. rewrite F. constructor.
+Qed.
+
+(* ---- monotone clock: the dispatcher's sub-history has monotone clock readings *)
+Lemma mono_app_intro t1 : forall a t0 b, Forall (fun d => RP.op_time d = Some t1 \/ RP.op_time d = None) a -> t0 <= t1 -> RP.mono t1 b -> RP.mono t0 (a ++ b).
+Proof.
+  induction a as [|d a IH]; intros t0 b Ha Hle Hb; [eapply RP.mono_weaken; eassumption|]. inversion Ha as [|? ? Hd Ha']; subst. cbn [app RP.mono].
+  destruct Hd as [Hd|Hd]; rewrite Hd; [split; [exact Hle|apply IH; [exact Ha'|lia|exact Hb]]|apply IH; assumption].
+Qed.
+
+Lemma lmono_step st o H : lmono (l_now st) (o :: H) -> l_now st <= l_now (fst (lstep st o)) /\ lmono (l_now (fst (lstep st o))) H.
+Proof. rewrite lstep_now. destruct o; cbn [lmono]; intros Hm; try (split; [lia|exact Hm]). exact Hm. Qed.
+
+Lemma lrun_mono : forall H st, lmono (l_now st) H -> RP.mono (l_now st) (dops (snd (lrun st H))).
+Proof.
+  induction H as [|o H IH]; intros st Hm; [exact I|]. rewrite lrun_cons. cbn [snd]. rewrite dops_app.
+  apply lmono_step in Hm as [Hle Hm]. eapply mono_app_intro; [apply lstep_dops|exact Hle|apply IH; exact Hm].
+Qed.
+
+Lemma lrun_now_le : forall H st, lmono (l_now st) H -> l_now st <= l_now (fst (lrun st H)).
+Proof.
+  induction H as [|o H IH]; intros st Hm; [cbn; lia|]. rewrite lrun_cons. cbn [fst]. apply lmono_step in Hm as [Hle Hm]. specialize (IH _ Hm). lia.
+Qed.
+Lemma lmono_app : forall H1 st H2, lmono (l_now st) (H1 ++ H2) -> lmono (l_now st) H1 /\ lmono (l_now (fst (lrun st H1))) H2.
+Proof.
+  induction H1 as [|o H1 IH]; intros st H2 Hm; [split; [exact I|exact Hm]|]. cbn [app] in Hm. apply lmono_step in Hm as [Hle Hm].
+  destruct (IH _ _ Hm) as [A B]. rewrite lrun_cons. cbn [fst]. split; [|exact B]. rewrite lstep_now in A. destruct o; cbn [lmono]; try exact A. rewrite lstep_now in Hle. split; [exact Hle|exact A].
+Qed.
+(* every event of a history carries a clock reading between those of its first and its last state *)
+Lemma lrun_tags : forall H st, lmono (l_now st) H -> Forall (fun e => l_now st <= fst e <= l_now (fst (lrun st H))) (snd (lrun st H)).
+Proof.
+  induction H as [|o H IH]; intros st Hm; [constructor|]. rewrite lrun_cons. cbn [fst snd]. apply lmono_step in Hm as [Hle Hm].
+  pose proof (lrun_now_le _ _ Hm) as Hle2. apply Forall_app. split.
+  - eapply Forall_impl; [|apply lstep_tags]. intros e He. cbn beta in He. lia.
+  - eapply Forall_impl; [|apply IH; exact Hm]. intros e He. cbn beta in He. lia.
+Qed.
+
+(* ---- the processor inside: runs of handlers other than the tick *)
+Lemma prun_cons st o ops : prun st (o :: ops) = (fst (prun (fst (step st o)) ops), snd (step st o) :: snd (prun (fst (step st o)) ops)).
+Proof. cbn [Processor.run]. destruct (step st o) as [s1 o1]. cbn [fst snd]. destruct (prun s1 ops). reflexivity. Qed.
+
+Lemma prun_keysnd : forall ops st, KeysND st -> KeysND (fst (prun st ops)).
+Proof. induction ops as [|o ops IH]; intros st ND; [exact ND|]. rewrite prun_cons. cbn [fst]. apply IH. apply step_keysnd. exact ND. Qed.
+
+Lemma prun_clock : forall ops st, clock (fst (prun st ops)) = last_clock (clock st) ops.
+Proof.
+  induction ops as [|o ops IH]; intros st; [reflexivity|]. rewrite prun_cons. cbn [fst]. rewrite IH. unfold last_clock. cbn [fold_left]. f_equal.
+  destruct (op_eq_cleanup o) as [->|Hn]; [destruct (cleanup_step_shape recover keccak sign own gov_chain gov_addr st) as (A & _); exact A|].
+  destruct (step_shape recover keccak sign own gov_chain gov_addr st o Hn) as (A & _). exact A.
+Qed.
+
+Lemma prun_tf : forall ops st h e, Forall (fun x => x <> Cleanup) ops -> alookup h (agg st) = Some e ->
+  exists e', alookup h (agg (fst (prun st ops))) = Some e' /\ tf e' = tf e.
+Proof.
+  induction ops as [|o ops IH]; intros st h e Hn Hl; [exists e; auto|]. inversion Hn as [|? ? Ho Hn']; subst. rewrite prun_cons. cbn [fst].
+  destruct (step_shape recover keccak sign own gov_chain gov_addr st o Ho) as (_ & C & _). destruct (one_entry_lookup _ _ _ _ C Hl) as (e1 & H1 & T1).
+  destruct (IH _ _ _ Hn' H1) as (e2 & H2 & T2). exists e2. split; [exact H2|congruence].
+Qed.
+
+(* an entry found after such a run was there before with the same timing fields, or was created during the run: never retried *)
+Lemma prun_tf_back : forall ops st h e', Forall (fun x => x <> Cleanup) ops -> alookup h (agg (fst (prun st ops))) = Some e' ->
+  (exists e, alookup h (agg st) = Some e /\ tf e' = tf e) \/ (alookup h (agg st) = None /\ last_retry e' = None /\ retries e' = 0).
+Proof.
+  induction ops as [|o ops IH]; intros st h e' Hn Hl; [left; exists e'; auto|]. inversion Hn as [|? ? Ho Hn']; subst. rewrite prun_cons in Hl. cbn [fst] in Hl.
+  destruct (step_shape recover keccak sign own gov_chain gov_addr st o Ho) as (_ & C & _).
+  destruct (IH _ _ _ Hn' Hl) as [(e1 & H1 & T1)|(H1 & L1 & R1)].
+  - destruct (alookup h (agg st)) as [e|] eqn:E0.
+    + left. exists e. split; [reflexivity|]. destruct (one_entry_lookup _ _ _ _ C E0) as (e1' & H1' & T1'). congruence.
+    + right. split; [reflexivity|]. pose proof (one_entry_fresh _ _ _ _ C E0 H1) as T. unfold tf in *. cbn [new_entry first_seen retries last_retry settled] in T. inversion T1. inversion T. split; congruence.
+  - right. destruct (alookup h (agg st)) as [e|] eqn:E0; [|auto]. destruct (one_entry_lookup _ _ _ _ C E0) as (e1' & H1' & _). congruence.
+Qed.
+
+Lemma prun_cur_db_nochange : forall ops st, Forall (fun x => match x with LocalMsg _ | SetClock _ => True | _ => False end) ops ->
+  cur (fst (prun st ops)) = cur st.
+Proof.
+  induction ops as [|o ops IH]; intros st Hn; [reflexivity|]. inversion Hn as [|? ? Ho Hn']; subst. rewrite prun_cons. cbn [fst]. rewrite IH by exact Hn'.
+  assert (Hc : o <> Cleanup) by (destruct o; try contradiction; discriminate).
+  destruct (step_shape recover keccak sign own gov_chain gov_addr st o Hc) as (_ & _ & C). rewrite C. destruct o; try contradiction; reflexivity.
+Qed.
+
+(* ---- PostObservationRequest of a burst *)
+Lemma post_all_incl : forall rs st, incl (l_sendq st) (l_sendq (fst (post_all st rs))).
+Proof.
+  induction rs as [|q rs IH]; intros st; [apply incl_refl|]. cbn [ReobsLoop.post_all].
+  destruct (R.post sendq_cap (l_sendq st) q) as [q' res] eqn:Ep. specialize (IH (with_sendq st q')).
+  destruct (post_all (with_sendq st q') rs) as [st2 e2]. cbn [fst with_sendq l_sendq] in *.
+  eapply incl_tran; [|exact IH]. unfold R.post in Ep. destruct (sendq_cap <=? length (l_sendq st))%nat; inversion Ep; subst; [apply incl_refl|apply incl_appl; apply incl_refl].
+Qed.
+
+Lemma post_all_in : forall rs st r, In r rs ->
+  In r (l_sendq (fst (post_all st rs))) \/ In (l_now st, EPost r R.PostErrChanFull) (snd (post_all st rs)).
+Proof.
+  induction rs as [|q rs IH]; intros st r Hin; [destruct Hin|]. cbn [ReobsLoop.post_all].
+  destruct (R.post sendq_cap (l_sendq st) q) as [q' res] eqn:Ep. specialize (IH (with_sendq st q') r).
+  pose proof (post_all_incl rs (with_sendq st q')) as Hk.
+  destruct (post_all (with_sendq st q') rs) as [st2 e2]. cbn [fst snd with_sendq l_sendq l_now] in *.
+  destruct Hin as [->|Hin]; [|destruct (IH Hin) as [A|A]; [left; exact A|right; right; exact A]].
+  unfold R.post in Ep. destruct (sendq_cap <=? length (l_sendq st))%nat; inversion Ep; subst.
+  - right. left. reflexivity.
+  - left. apply Hk. apply in_or_app. right. left. reflexivity.
+Qed.
+End Loop2.
